@@ -154,7 +154,7 @@ impl WriteAheadLog {
     }
 
     pub(crate) fn last_lsn(&self) -> Option<Lsn> {
-        self.header.last_lsn()
+        self.header.metadata().wal_header.global_last_lsn
     }
 
     /// Runs the analysis phase of the ARIES recovery protocol.
